@@ -283,3 +283,27 @@ def ring_diene_stereo(m):
         if b.order == 1 and frozenset((i, j)) in cyc and i in ends and j in ends and ends[i] != j and (i in endo or j in endo):
             return True
     return False
+
+
+def aromatic_p_ambiguity(m):
+    """an aromatic ring system holds a neutral three-coordinate P/As (lone-pair donor or P(V)H for the aromatic-text reader) and
+    another neutral two-coordinate aromatic N/P/As written without hydrogen count: the reader has to guess which of them is
+    the pyrrole-type atom.  Routes to the known finding on that guess depending on atom order (c1cnp(C)c1 vs c1ccnp1C)"""
+    arom = {n: [k for k, b in nb.items() if b.order == 4] for n, nb in m._bonds.items()}
+    seen = set()
+    for s in arom:
+        if s in seen or not arom[s]:
+            continue
+        comp, stack = {s}, [s]
+        while stack:
+            for k in arom[stack.pop()]:
+                if k not in comp:
+                    comp.add(k)
+                    stack.append(k)
+        seen |= comp
+        three = [n for n in comp if m.atom(n).atomic_number in (15, 33) and not m.atom(n).charge and len(m._bonds[n]) == 3]
+        two = [n for n in comp if m.atom(n).atomic_number in (7, 15, 33) and not m.atom(n).charge and len(m._bonds[n]) == 2
+               and not m.atom(n).implicit_hydrogens]
+        if three and two:
+            return True
+    return False
